@@ -83,12 +83,16 @@ Lemma znth_5 {A} (a b c e f g : A) l d : znth 5 (a :: b :: c :: e :: f :: g :: l
 Proof. reflexivity. Qed.
 
 (* ------------------------------------------------------------------ the generated closures *)
+Ltac closure_eq :=
+  first [ reflexivity
+        | unfold honeycomb_next_direction, hso_next_direction, py_next_cell_number; cbn [fst snd]; cbv zeta;
+          mod_norm; first [ reflexivity | lia | ring ] ].
 Lemma honeycomb_next_direction_eq n nv c s :
   honeycomb_next_direction n nv c s = py_next_cell_number n nv c s.
-Proof. reflexivity. Qed.
+Proof. closure_eq. Qed.
 
 Lemma hso_next_direction_eq n c s : hso_next_direction n c s = py_next_cell_number n n c s.
-Proof. reflexivity. Qed.
+Proof. closure_eq. Qed.
 
 Lemma honeycomb_nv_pos n : 1 <= n -> 1 <= honeycomb_nv n.
 Proof.
